@@ -17,6 +17,8 @@ REGISTRY = {
     "C03": ("model_checking", ["cuckoo"]),
     "C04": ("model_checking", ["qf"]),
     "C05": ("model_checking", ["bloomfam", "countmin", "cuckoo", "expanding"]),
+    "C06": ("model_checking", ["layout"]),
+    "C07": ("model_checking", ["sizing"]),
     "C08": ("model_checking", ["bloomfam", "cuckoo"]),
     "C09": ("model_checking", ["expanding"]),
     "C10": ("model_checking", ["expanding"]),
@@ -27,6 +29,7 @@ REGISTRY = {
     "C16": ("model_checking", ["bloomfam", "countmin"]),
     "C15": ("model_checking", ["cuckoo"]),
     "C17": ("model_checking", ["countmin"]),
+    "C18": ("model_checking", ["hashes"]),
     "C19": ("model_checking", ["bloomfam", "countmin", "qf", "cuckoo", "expanding"]),
     "C20": ("model_checking", ["bitarray"]),
 }
